@@ -349,6 +349,11 @@ pub const ENTRIES: &[Entry] = &[
     // clone a traversal (before and in the middle of the search) and advance original and clone
     e!("traversal_clone", ALL, Args::X),
     e!("dijkstra_clone", &[WU], Args::X),
+    // the std-trait surface (Debug, Clone::clone_from, ==, Hash, Ord, Index...) of digraphs, traversals and
+    // algorithm objects: API that callers reach without naming a graaf method
+    e!("std_traits", ALL, Args::None),
+    e!("traversal_traits", ALL, Args::X),
+    e!("algo_object_traits", &[L, M, WI, WU], Args::XY),
     e!("prng", &[L], Args::None),
     // generated call sequences: (x, y, cb, t) only encode the sequence's seed
     e!("seq", UNW, Args::XY),
@@ -1046,6 +1051,112 @@ pub fn body(p: &Prog) -> u64 {
                 + DijkstraPred::new(&g, [x].into_iter()).clone().predecessors().pred.len()
                 + DijkstraDist::new(&g, [x].into_iter()).clone().distances().len()
         }),
+        "std_traits" => on!(p, d, [L, M, X, E, WI, WU], |g| {
+            use std::fmt::Write as _;
+            use std::hash::{Hash, Hasher};
+            let mut text = String::new();
+            let _ = write!(text, "{g:?}");
+            let mut h = g.converse();
+            h.clone_from(&g);
+            let mut s = std::collections::hash_map::DefaultHasher::new();
+            h.hash(&mut s);
+            let o = g.partial_cmp(&h).map_or(9, |o| o as i8 as i64 + 1) as u64;
+            text.len() as u64 + (h == g) as u64 + (h < g) as u64 + (h >= g) as u64 + o + (s.finish() & 1) + (g.clone().max(h) == g) as u64
+        }),
+        "traversal_traits" => on!(p, d, [L, M, X, E, WI, WU], |g| {
+            use std::fmt::Write as _;
+            macro_rules! traits {
+                ($make:expr) => {{
+                    let mut a = $make;
+                    let mut b = a.clone();
+                    let mut text = String::new();
+                    let _ = write!(text, "{a:?}");
+                    let e0 = a == b;
+                    let _ = a.next();
+                    let e1 = a == b;
+                    b.clone_from(&a);
+                    let e2 = a == b;
+                    let _ = write!(text, "{b:?}");
+                    text.len() + e0 as usize + e1 as usize + e2 as usize + a.count() + b.count()
+                }};
+            }
+            traits!(Bfs::new(&g, [x].into_iter()))
+                + traits!(BfsDist::new(&g, [x].into_iter()))
+                + traits!(BfsPred::new(&g, [x].into_iter()))
+                + traits!(Dfs::new(&g, [x].into_iter()))
+                + traits!(DfsDist::new(&g, [x].into_iter()))
+                + traits!(DfsPred::new(&g, [x].into_iter()))
+        }),
+        "algo_object_traits" => {
+            use std::fmt::Write as _;
+            use std::hash::{Hash, Hasher};
+            let mut text = String::new();
+            let mut acc = 0u64;
+            match p.repr {
+                L | M => {
+                    acc += on!(p, d, [L, M], |g| {
+                        let mut t = Tarjan::new(&g);
+                        let t0 = t.clone();
+                        let n = t.components().len();
+                        let _ = write!(text, "{t:?}{t0:?}");
+                        n + (t == t0) as usize
+                    });
+                    if p.repr == M {
+                        let g = mk::M(d);
+                        let mut j = Johnson75::new(&g);
+                        let j0 = j.clone();
+                        let n = j.circuits().len();
+                        let _ = write!(text, "{j:?}");
+                        acc += (n + (j == j0) as usize) as u64;
+                    }
+                    // a predecessor tree and its trait surface
+                    let mut t = PredecessorTree::new(d.order().max(1));
+                    let _ = write!(text, "{t:?}");
+                    let mut u = PredecessorTree::from(vec![Some(0); 3]);
+                    u.clone_from(&t);
+                    t[0] = Some(x);
+                    let mut s = std::collections::hash_map::DefaultHasher::new();
+                    t.hash(&mut s);
+                    acc += (t == u) as u64 + (t.cmp(&u) as i8 + 1) as u64 + (s.finish() & 1) + u[y].is_some() as u64;
+                    acc += t.into_iter().count() as u64;
+                }
+                WI => {
+                    let g = mk::WI(d);
+                    let mut fw = FloydWarshall::new(&g);
+                    let fw0 = fw.clone();
+                    let m = fw.distances().clone();
+                    let _ = write!(text, "{fw:?}");
+                    let mut m2 = DistanceMatrix::<isize>::new(1, 0);
+                    m2.clone_from(&m);
+                    let mut s = std::collections::hash_map::DefaultHasher::new();
+                    m2.hash(&mut s);
+                    acc += (fw == fw0) as u64 + (m == m2) as u64 + (m.cmp(&m2) as i8 + 1) as u64 + (s.finish() & 1);
+                    acc += m2[..].len() as u64;
+                    m2[..].fill(3);
+                    acc += m2[0..1].len() as u64;
+                    // ranges with caller-chosen bounds must panic, never read out of bounds
+                    acc += m2[x.min(4)..y.min(5).max(x.min(4))].len() as u64;
+                    m2[x] = 1;
+                    let mut b = BellmanFordMoore::new(&g, x);
+                    let b0 = b.clone();
+                    acc += b.distances().map_or(0, <[isize]>::len) as u64 + (b == b0) as u64;
+                    let _ = write!(text, "{b:?}");
+                }
+                _ => {
+                    let g = mk::WU(d);
+                    let mut a = DijkstraPred::new(&g, [x].into_iter());
+                    let mut b = a.clone();
+                    let _ = a.next();
+                    b.clone_from(&a);
+                    let _ = write!(text, "{a:?}{b:?}");
+                    acc += (a.count() + b.count()) as u64;
+                    let mut c = DijkstraDist::new(&g, [y].into_iter());
+                    let c0 = c.clone();
+                    acc += c.distances().len() as u64 + c0.count() as u64;
+                }
+            }
+            acc + text.len() as u64
+        }
         "seq" => {
             let xi = IDS.iter().position(|i| *i == p.x).unwrap() as u64;
             let yi = IDS.iter().position(|i| *i == p.y).unwrap() as u64;
@@ -1053,7 +1164,8 @@ pub fn body(p: &Prog) -> u64 {
         }
         "prng" => {
             let mut r = Xoshiro256StarStar::new(42);
-            let mut s = 0u64;
+            let dflt = Xoshiro256StarStar::default();
+            let mut s = (dflt.clone() == dflt) as u64 + (Ord::cmp(&r, &dflt) as i8 + 1) as u64 + format!("{r:?}").len() as u64;
             for _ in 0..16 {
                 s ^= r.next().unwrap();
                 s ^= r.next_f64().to_bits();
